@@ -100,3 +100,52 @@ S("r1-C19-m3", "intern-in-place-insert", "string.go addString inserts in place i
 S("r1-C20-m1", "max-scan-skips-private", "plenctag: max-index scan skips unexported fields", "unexported field holding the highest existing index")
 S("r1-C20-m2", "isexcluded-early-return", "plenctag isExcluded returns as soon as the sql key is present", "-json, field with sql name and json:\"-\"")
 S("r1-C20-m3", "inspect-returns-false", "plenctag: ast.Inspect callback returns false after a struct", "anonymous struct nested in a field type")
+
+# ---- round 2 ----
+S("r2-C01-m1", "slice-append-backpatched-length", "wrapper.go WTLengthSliceWrapper.append reserves one length byte per element and back-patches it, shuffling the element up for a 2-byte length only",
+  "[]struct / []string element of 16384 bytes or more")
+S("r2-C01-m2", "flat-int16-wrong-width", "plenc.go: int16 \"flat\" registered with FlatIntCodec[uint8]", "int16 flat field outside 0..255")
+S("r2-C01-m3", "intern-table-32bit-hash", "string.go: intern table keyed by a 32-bit FNV hash of the bytes", "two different strings with the same 32-bit hash through one interning codec")
+S("r2-C02-m1", "struct-omit-all-zero", "struct.go StructCodec.Omit returns true when every field is omitted", "nested all-zero struct as slice element / pointer target / map value")
+S("r2-C02-m2", "struct-read-forward-only-lookup", "struct.go: fieldsByIndex table replaced by a forward-only scan carried from field to field",
+  "data whose fields are not in the reader's declaration order (reordered declarations)")
+S("r2-C02-m3", "flat-int64-through-uint32", "plenc.go: int64 \"flat\" registered with FlatIntCodec[uint32]", "flat int64 value above 2^32")
+S("r2-C03-m1", "time-read-skip-wrong-wiretype", "time.go TimeCodec.Read skips unknown fields as WTVarInt whatever their wire type", "time message carrying an unknown length-delimited field")
+S("r2-C03-m2", "skip-rejects-empty-entries", "wire.go Skip WTSlice: count compared with remaining bytes / 2", "skipped slice whose entries are mostly empty")
+S("r2-C03-m3", "struct-read-clears-on-empty", "struct.go StructCodec.Read zeroes the target when the encoding is empty", "re-used target, nested struct field present but empty in the data")
+S("r2-C04-m1", "walker-skip-error-nil-deref", "descriptor.go: 'failed to skip' error message dereferences the nil element", "Descriptor decode of data with a truncated unknown field")
+S("r2-C04-m2", "json-typecode-table-index", "json.go readJSONKV indexes a fixed table with the untrusted type code", "JSON entry whose type code is out of range")
+S("r2-C04-m3", "protoslice-linear-growth", "wrapper.go ProtoSliceWrapper.Read grows the array by a constant", "long repeated field: quadratic copying")
+S("r2-C05-m1", "jsonarray-read-zero-for-empty", "json.go JSONArrayCodec.Read returns 0 consumed bytes for an empty array", "empty array followed by more data in the same slice")
+S("r2-C05-m2", "timecompat-size-removed-3", "time.go TimeCompatCodec.Size removed", "ProtoCompatibleTime nested time")
+S("r2-C05-m3", "struct-size-cached", "struct.go StructCodec.Size caches the nested size in the codec and Append trusts it", "two values of one type sized then appended out of order / concurrently")
+S("r2-C09-m1", "ptr-to-slice-loses-presence", "wrapper.go PointerWrapper.Descriptor sets ExplicitPresence only when the target is not a slice", "Descriptor of *[]T field")
+S("r2-C09-m2", "protoslice-slot-not-cleared", "wrapper.go ProtoSliceWrapper.Read no longer clears the slot past Len", "re-used backing array, element with nil pointer field")
+S("r2-C09-m3", "time-zero-empty-body", "time.go TimeCodec writes an empty body for the zero time (manifested only through defect D19, since fixed)", "map value *time.Time zero with zero key")
+S("r2-C10-m1", "protoslice-slot-not-cleared-2", "wrapper.go ProtoSliceWrapper.Read no longer clears the slot it appends into", "re-used backing array with spare capacity")
+S("r2-C10-m2", "fixedslice-len-only-on-alloc", "wrapper.go WTFixedSliceWrapper.Read sets Len only when it allocates", "re-used []float64 with enough capacity")
+S("r2-C10-m3", "time-scratch-pool", "time.go: package-level sync.Pool of ptime scratch never reset", "two decodes through the pool, second lacking a field")
+S("r2-C11-m1", "bytes-append-returns-input", "string.go BytesCodec.Append returns the caller's slice when the buffer is empty", "Marshal(nil, &[]byte) then mutate either")
+S("r2-C11-m2", "walker-zero-copy-strings", "descriptor.go walker hands the Outputter zero-copy views of the input", "Outputter that keeps strings; buffer re-used")
+S("r2-C11-m3", "float-slice-view-of-input", "wrapper.go WTFixedSliceWrapper.Read points the slice at the input bytes", "[]float64 decoded, input overwritten")
+S("r2-C12-m1", "time-option-from-arrays-flag", "plenc.go RegisterDefaultCodecs picks the time codec from ProtoCompatibleArrays", "instance with only one of the two options")
+S("r2-C12-m2", "timecompat-zigzag-nanos", "time.go TimeCompatCodec zig-zags the nanos field", "ProtoCompatibleTime, non-zero nanos read by protobuf")
+S("r2-C12-m3", "repeated-reader-loses-on-grow", "wrapper.go readAsWTLength grows without copying existing elements", "repeated form longer than the initial capacity")
+S("r2-C13-m1", "walker-flat-int-unsigned", "descriptor.go FieldTypeFlatInt rendered with Uint64", "negative flat int")
+S("r2-C13-m2", "descriptor-json-tags", "descriptor.go Descriptor struct json tags drop LogicalType", "Descriptor restored through encoding/json")
+S("r2-C13-m3", "json-tag-options-in-name", "struct.go field name takes the whole json tag including options", "json:\"id,omitempty\"")
+S("r2-C14-m1", "descriptor-cached-shared", "struct.go struct descriptor cached with sync.Once and handed out shared", "caller mutates the returned Descriptor")
+S("r2-C14-m2", "unexported-tagged-fields-encoded", "struct.go unexported fields with a plenc tag are encoded and described", "unexported field carrying a plenc tag")
+S("r2-C14-m3", "flat-int16-plain-uint", "plenc.go int16 flat registered with UintCodec (Descriptor type Uint)", "Descriptor of a flat int16 field")
+S("r2-C15-m1", "endarray-early-return", "output.go EndArray compact [] early return skips the stack pop", "empty array inside a container")
+S("r2-C15-m2", "float64-guard-float32-limit", "output.go Float64 NaN/Inf guard uses the float32 limit", "float64 above MaxFloat32")
+S("r2-C15-m3", "namefield-fast-path", "output.go NameField fast path forgets control characters", "field name with a control character")
+S("r2-C16-m1", "whole-floats-as-ints", "json.go whole-number float64 written as int", "float64(2) in a JSON value")
+S("r2-C16-m2", "jsonarray-rejects-trailing", "json.go JSONArrayCodec.Read rejects data following the array", "array as an unknown field being skipped / followed by data")
+S("r2-C16-m3", "nil-elements-zero-length", "json.go nil array elements written as zero-length entries", "nil inside an array rendered through the Descriptor")
+S("r2-C17-m1", "named-int-falls-back-to-int64", "codec.go named int types fall back to the int64 registration", "registration for int with a named int type")
+S("r2-C17-m2", "flush-under-struct-tag", "struct.go pending codecs flushed under the struct's tag", "tagged sub-codec then untagged use")
+S("r2-C17-m3", "map-key-bypasses-registry", "map.go BuildMapCodec uses StringCodec directly for string-kind keys", "registered codec for a named string key type")
+S("r2-C20-m1", "exclusion-before-existing-tag", "plenctag exclusion check runs before the existing-tag check", "-json on a field that already has a plenc tag and json:\"-\"")
+S("r2-C20-m2", "writes-despite-errors", "plenctag writes output even when rewrite reported errors", "file with an unparsable plenc tag")
+S("r2-C20-m3", "plencvalue-parses-options", "plenctag plencValue parses name+options as the index", "existing tag plenc:\"3,flat\"")
